@@ -2160,6 +2160,10 @@ class tensor:
             self.data[actualIdx] = value
 
     def _set_subtensor(self, key, value):  # noqa: PLR0912
+        # Take the values now: the right-hand side may be this tensor itself,
+        # whose data and shape change below when the assignment enlarges it
+        if isinstance(value, ttb.tensor):
+            value = value.data
         # Extract array of subscripts
         subs = key
         # Will the size change? If so we first need to resize x
@@ -2199,10 +2203,7 @@ class tensor:
             self.data = newData
 
             self.shape = tuple(newsiz)
-        if isinstance(value, ttb.tensor):
-            self.data[key] = value.data
-        else:
-            self.data[key] = value
+        self.data[key] = value
 
     def _set_subscripts(self, key, value):
         # Extract array of subscripts
